@@ -1,26 +1,156 @@
 import FGVerif.Driver.Shared
 import FGVerif.Model.Subgraph
-/-! driver operations for C03/C04 (base version) -/
+import FGVerif.Model.C03Spec
+/-!
+  driver operations for C03 / C04 (one implementation, `C04.handle` calls `handleFor .c04`).
+
+  `(anchored <mapper> <host> <a> <pattern> <pa> [impl])`
+      impl := (flag ((h p) …) (vis …) (pvis …)) | (raised Kind)
+      reply  (ok (flag pairs-if-flag-and-C04) <spec_model> <spec_impl>
+                 (failed clause…) (model_failed clause…) (host_cycle b) (pattern_cycle b)
+                 (exists b) (vis_agree b|_) (wf b))
+  `(unanchored <mapper> <host> <pattern> [impl flag | (raised Kind)])`
+      reply  (ok flag <spec_model> <spec_impl> (failed …) (model_failed …) (host_cycle b)
+                 (pattern_cycle b) (exists b) (vis_agree _) (wf b))
+
+  clauses:  c03_missed                  an embedding exists (oracle) but the flag is false
+            c04_not_embedding           flag true, returned pairs are not an embedding of the
+                                        anchor's component containing the anchor pair
+                                        (un-anchored: flag true although no anchor pair embeds)
+            c04_false_negative_acyclic  host and pattern acyclic, flag false, embedding exists
+            c04_pair_not_admitted       flag true, anchor pair missing or a returned pair whose symbols
+                                        the mapper does not admit (judged for every mapper; with
+                                        can_map_to_nothing it is the only C04 clause judged)
+            raised                      the implementation raised
+  `spec_*` is the conjunction of the clauses that belong to the property asked:
+  C03: c03_missed, raised;  C04: c04_not_embedding, c04_false_negative_acyclic, raised.
+-/
 namespace C03
 open SExp Perm Sub
 
-/-- `(anchored <mapper> <host> <a> <pattern> <pa> [impl])` → `(ok (ok? sorted-pairs sorted-vis sorted-pvis) 1 _)` -/
-def handle : List SExp → Option SExp
-  | .atom "anchored" :: m :: g :: a :: p :: pa :: _rest => do
+inductive Which where
+  | c03
+  | c04
+deriving DecidableEq
+
+structure Clauses where
+  missed : Bool := false
+  notEmbedding : Bool := false
+  falseNegAcyclic : Bool := false
+  raised : Bool := false
+  /-- flag true, but the anchor pair is missing or some returned pair is not admitted by the
+      mapper's single-symbol rule (evaluated for every mapper, also with can_map_to_nothing) -/
+  pairNotAdmitted : Bool := false
+  /-- the mapper has can_map_to_nothing symbols: pattern nodes may stay unmapped by design, so only
+      `pairNotAdmitted` and `raised` are judged -/
+  cmtn : Bool := false
+
+def Clauses.names (c : Clauses) : List SExp :=
+  (if c.missed then [SExp.atom "c03_missed"] else []) ++
+  (if c.notEmbedding then [SExp.atom "c04_not_embedding"] else []) ++
+  (if c.falseNegAcyclic then [SExp.atom "c04_false_negative_acyclic"] else []) ++
+  (if c.raised then [SExp.atom "raised"] else []) ++
+  (if c.pairNotAdmitted then [SExp.atom "c04_pair_not_admitted"] else [])
+
+def Clauses.holds (c : Clauses) : Which → Bool
+  | .c03 => !c.missed && !c.raised
+  | .c04 => if c.cmtn then !c.pairNotAdmitted && !c.raised
+            else !c.notEmbedding && !c.falseNegAcyclic && !c.raised && !c.pairNotAdmitted
+
+/-- the three clauses for an anchored answer -/
+def judgeAnchored (m : Mapper) (g : Graph) (a : Int) (p : Graph) (pa : Int) (ex acyclic : Bool)
+    (flag : Bool) (pairs : List (Int × Int)) : Clauses :=
+  { missed := ex && !flag
+    notEmbedding := flag && !isEmbedding m p g pa a pairs
+    falseNegAcyclic := acyclic && !flag && ex
+    pairNotAdmitted := flag && !(pairs.contains (a, pa) &&
+      pairs.all fun x => admits m ((p.symbol? x.2).getD "") ((g.symbol? x.1).getD ""))
+    cmtn := !m.canMapToNothing.isEmpty }
+
+def judgeUnanchored (ex acyclic : Bool) (flag : Bool) : Clauses :=
+  { missed := ex && !flag
+    notEmbedding := flag && !ex
+    falseNegAcyclic := acyclic && !flag && ex }
+
+def kv (k : String) (v : SExp) : SExp := .list [.atom k, v]
+
+def isRaised : SExp → Bool
+  | .list (.atom "raised" :: _) => true
+  | _ => false
+
+def asPairs : SExp → Option (List (Int × Int)) := asList (asPair asInt asInt)
+
+def handleFor (w : Which) : List SExp → Option SExp
+  | .atom "anchored" :: m :: g :: a :: p :: pa :: rest => do
       let m ← asMapper m
       let g ← asGraph g
       let p ← asGraph p
       let a ← asInt a
       let pa ← asInt pa
       let r := mapAnchored g a p pa m
-      pure (.list [.atom "ok",
-        .list [ofBool r.ok, ofPairs (sortPairs r.mapping), ofList ofInt (sortInts r.vis), ofList ofInt (sortInts r.pvis)],
-        ofBool true, none'])
-  | .atom "unanchored" :: m :: g :: p :: _rest => do
+      let ex := existsEmbedding m p g pa a
+      let hostCyc := !isForestB g
+      let patCyc := !isForestB p
+      let acyclic := !hostCyc && !patCyc
+      let cm := judgeAnchored m g a p pa ex acyclic r.ok r.mapping
+      -- C03 observes the flag only; C04 the flag and, on success, the pair set
+      let modelOut := SExp.list [ofBool r.ok, ofPairs (if r.ok && w == .c04 then sortPairs r.mapping else [])]
+      let (ci, visAgree) ← match rest with
+        | [impl] =>
+            if isRaised impl then pure (some ({ raised := true } : Clauses), none')
+            else match impl with
+              | .list [f, prs, vis, pvis] => do
+                  let f ← asBool f
+                  let prs ← asPairs prs
+                  let vis ← asList asInt vis
+                  let pvis ← asList asInt pvis
+                  pure (some (judgeAnchored m g a p pa ex acyclic f prs),
+                        ofBool (sortInts vis == sortInts r.vis && sortInts pvis == sortInts r.pvis))
+              | _ => none
+        | _ => pure (none, none')
+      pure (.list [.atom "ok", modelOut, ofBool (cm.holds w),
+        (match ci with | some c => ofBool (c.holds w) | none => none'),
+        kv "failed" (.list (match ci with | some c => c.names | none => [])),
+        kv "model_failed" (.list cm.names),
+        kv "host_cycle" (ofBool hostCyc), kv "pattern_cycle" (ofBool patCyc),
+        kv "exists" (ofBool ex), kv "vis_agree" visAgree,
+        kv "wf" (ofBool (wfB g && wfB p))])
+  | .atom "unanchored" :: m :: g :: p :: rest => do
       let m ← asMapper m
       let g ← asGraph g
       let p ← asGraph p
-      pure (.list [.atom "ok", ofBool (mapSubgraphToGraph g p m), ofBool true, none'])
+      let flag := mapSubgraphToGraph g p m
+      let ex := existsEmbeddingAny m p g
+      let hostCyc := !isForestB g
+      let patCyc := !isForestB p
+      let acyclic := !hostCyc && !patCyc
+      let cm := judgeUnanchored ex acyclic flag
+      let ci ← match rest with
+        | [impl] =>
+            if isRaised impl then pure (some ({ raised := true } : Clauses))
+            else do
+              let f ← asBool impl
+              pure (some (judgeUnanchored ex acyclic f))
+        | _ => pure none
+      pure (.list [.atom "ok", ofBool flag, ofBool (cm.holds w),
+        (match ci with | some c => ofBool (c.holds w) | none => none'),
+        kv "failed" (.list (match ci with | some c => c.names | none => [])),
+        kv "model_failed" (.list cm.names),
+        kv "host_cycle" (ofBool hostCyc), kv "pattern_cycle" (ofBool patCyc),
+        kv "exists" (ofBool ex), kv "vis_agree" none',
+        kv "wf" (ofBool (wfB g && wfB p))])
+  /- `(embeds <mapper> <host> <a> <pattern> <pa>)`: the oracle alone (cross-checked against
+     networkx's monomorphism enumeration by the harness) -/
+  | .atom "embeds" :: m :: g :: a :: p :: pa :: _ => do
+      let m ← asMapper m
+      let g ← asGraph g
+      let p ← asGraph p
+      let a ← asInt a
+      let pa ← asInt pa
+      pure (.list [.atom "ok", ofBool (existsEmbedding m p g pa a), ofBool true, none',
+        kv "host_cycle" (ofBool (!isForestB g)), kv "pattern_cycle" (ofBool (!isForestB p))])
   | _ => none
+
+def handle : List SExp → Option SExp := handleFor .c03
 
 end C03
